@@ -66,7 +66,7 @@ func genC17(leanRoot string) {
 		repo = "/repo"
 	}
 	fset := token.NewFileSet()
-	var cmps, incs, triples, fresh []string
+	var cmps, incs, triples, fresh, marks []string
 	for _, rel := range []string{"rdfdescription/resource_list_builder.go", "rdfdescription/statement.go", "rdfdescription/resource.go"} {
 		f, err := parser.ParseFile(fset, filepath.Join(repo, rel), nil, 0)
 		if err != nil {
@@ -105,7 +105,28 @@ func genC17(leanRoot string) {
 					}
 					if lit != nil {
 						guard := "-"
-						for i := len(stack) - 2; i >= 0; i-- {
+						// a conjunct `opts.<Field>` of an enclosing && chain also counts as the guard
+						for i := len(stack) - 2; i >= 0 && guard == "-"; i-- {
+							be, ok := stack[i].(*ast.BinaryExpr)
+							if !ok || be.Op != token.LAND {
+								break
+							}
+							var conj func(e ast.Expr)
+							conj = func(e ast.Expr) {
+								if b2, ok := e.(*ast.BinaryExpr); ok && b2.Op == token.LAND {
+									conj(b2.X)
+									conj(b2.Y)
+									return
+								}
+								if se, ok := e.(*ast.SelectorExpr); ok {
+									if id, ok := se.X.(*ast.Ident); ok && id.Name == "opts" && guard == "-" {
+										guard = "&& opts." + se.Sel.Name
+									}
+								}
+							}
+							conj(be)
+						}
+						for i := len(stack) - 2; i >= 0 && guard == "-"; i-- {
 							if is, ok := stack[i].(*ast.IfStmt); ok {
 								if se, ok := is.Cond.(*ast.SelectorExpr); ok {
 									if id, ok := se.X.(*ast.Ident); ok && id.Name == "opts" {
@@ -127,6 +148,22 @@ func genC17(leanRoot string) {
 							}
 						}
 						cmps = append(cmps, fmt.Sprintf("(%s, %s, %s, %s)", c17Str(name), c17Str(guard), c17Str(x.Op.String()), c17Str(lit.Value)))
+					}
+				case *ast.IndexExpr:
+					// uses of the `inlined` set of the repaired export: `!inlined[…]` (read) or `inlined[…] = true` (write)
+					if id, ok := x.X.(*ast.Ident); ok && id.Name == "inlined" && len(stack) >= 2 {
+						kind := "?" + fmt.Sprintf("%T", stack[len(stack)-2])
+						switch par := stack[len(stack)-2].(type) {
+						case *ast.UnaryExpr:
+							if par.Op == token.NOT {
+								kind = "!read"
+							}
+						case *ast.AssignStmt:
+							if len(par.Lhs) == 1 && par.Lhs[0] == ast.Expr(x) && len(par.Rhs) == 1 && par.Tok == token.ASSIGN {
+								kind = "write=" + types.ExprString(par.Rhs[0])
+							}
+						}
+						marks = append(marks, fmt.Sprintf("(%s, %s)", c17Str(name), c17Str(kind)))
 					}
 				case *ast.IncDecStmt:
 					if c17IsRefCount(x.X) {
@@ -191,6 +228,8 @@ func genC17(leanRoot string) {
 	emit("triples", "String × String", triples)
 	sb.WriteString("/-- (method, number of rdf.NewBlankNode() calls) -/\n")
 	emit("fresh", "String × Nat", fresh)
+	sb.WriteString("/-- (method, kind) of every use of the `inlined` set (empty before patch fix-c17-export-cycles) -/\n")
+	emit("marks", "String × String", marks)
 	sb.WriteString("end RdfModel.Gen.DescFacts\n")
 	writeIfChanged(filepath.Join(leanRoot, "RdfModel", "Gen", "DescFacts.lean"), sb.String())
 }
